@@ -100,6 +100,11 @@ def gen_programs(payload):
     out = []
     modes = list(MODES)
     for n in range(payload["count"]):
+        if r.random() < 0.2:
+            prog, family = program.gen_gauss(r)
+            mode = r.choice(["eager", "eager", "lazy", "reflect", "normalize_build", "lazy_normalize", "sequential"])
+            out.append({"program": prog, "family": family, "mode": mode, "workload": "gauss"})
+            continue
         if r.random() < 0.3:
             prog, family = program.gen_semiring(r)
             mode = r.choice(["normalize_build", "lazy_normalize", "optimizer", "optimizer", "lazy", "eager", "sequential"])
